@@ -77,9 +77,11 @@ Theorem C18_string_to_int_range : forall s v, string_to_int s = Some v -> 0 <= v
 Proof. exact string_to_int_range. Qed.
 Print Assumptions C18_string_to_int_range.
 
+(* CHANGED BY PROOF: byte literals annotated with %N (the file opens Z_scope, so [114] was read as list Z);
+   the statement is otherwise unchanged *)
 Example C18_nonvacuous :
-  let w := mkworld [114] 256 [101] (fun b => beq b [101]) [47;112] false in
-  effective w (mkenv (Some [55]) None None None None None) [Of [51]; Ot [52]; Of [57]] =
-    Run (mkset 9 4 0 [114] [101] None [47;112]) /\
-  effective w (mkenv (Some [55]) None None None None None) [Of [48]] = Refused.
+  let w := mkworld [114%N] 256 [101%N] (fun b => beq b [101%N]) [47%N;112%N] false in
+  effective w (mkenv (Some [55%N]) None None None None None) [Of [51%N]; Ot [52%N]; Of [57%N]] =
+    Run (mkset 9 4 0 [114%N] [101%N] None [47%N;112%N]) /\
+  effective w (mkenv (Some [55%N]) None None None None None) [Of [48%N]] = Refused.
 Proof. split; vm_compute; reflexivity. Qed.
